@@ -198,6 +198,10 @@ func (x *Exec) callAsserts(fr *Frame, st *State, key string, ord int, fn *ssa.Fu
 				for i, a := range args {
 					ev.bind["ARG_"+ict.Params[i+1]] = a
 				}
+				if x.hookRecv != nil {
+					// the receiver of an interface call is $<first declared parameter>
+					ev.bind["ARG_"+ict.Params[0]] = x.hookRecv
+				}
 			} else if ict != nil && len(ict.Params) == len(args) {
 				for i, a := range args {
 					ev.bind["ARG_"+ict.Params[i]] = a
@@ -294,7 +298,9 @@ func (x *Exec) invoke(fr *Frame, st *State, c *ssa.CallCommon, recv Value, args 
 	}
 	{
 		ord := st.callCount(fr.id, key) + 1
+		x.hookRecv = recv
 		x.callAsserts(fr, st, key, ord, nil, args, pos)
+		x.hookRecv = nil
 		k0 := k
 		k = func(st2 *State, res Value) {
 			st2.calls = &callEntry{frame: fr.id, top: topID(fr), key: key, res: res, parent: st2.calls}
